@@ -7,6 +7,8 @@
      struct S3 {d: {String: UInt8}; o: S0?}      composite 3
      resource R0 {id: Int}                       composite 4
      event Ev(id: Int)                           composite 5
+     enum En: UInt8 {a; b}  {rawValue: UInt8}    composite 6     field name rawValue 8
+     struct S4 {m: {En: Int}; e: En}             composite 7     field names m 9, e 10
    type ids 8 (A.0000000000000002.C.S0) and 9 (A.0000000000000001.C.Nope) do not resolve. *)
 From CV Require Export C29.Model.
 Import ListNotations.
@@ -15,14 +17,15 @@ Open Scope Z_scope.
 Definition D0 : env := {|
   comp_resource := fun c => Nat.eqb c 4;
   comp_conf := fun c => match c with 0%nat => [0%nat] | 1%nat => [0%nat; 1%nat] | _ => [] end;
+  comp_enum := fun c => Nat.eqb c 6;
   iface_resource := fun _ => false;
   iface_supers := fun _ => [];
 |}.
 
 Definition E0 : cenv := {|
   base := D0;
-  comp_declared := fun c => Nat.leb c 5;
-  comp_kind := fun c => match c with 4%nat => KResource | 5%nat => KEvent | _ => KStruct end;
+  comp_declared := fun c => Nat.leb c 7;
+  comp_kind := fun c => match c with 4%nat => KResource | 5%nat => KEvent | 6%nat => KEnum | _ => KStruct end;
   comp_fields := fun c =>
     match c with
     | 0%nat => [(0%nat, TPrim PInt)]
@@ -31,9 +34,12 @@ Definition E0 : cenv := {|
     | 3%nat => [(5%nat, TDict (TPrim PString) (TPrim PUInt8)); (6%nat, TOpt (TComp 0))]
     | 4%nat => [(0%nat, TPrim PInt)]
     | 5%nat => [(0%nat, TPrim PInt)]
+    | 6%nat => [(8%nat, TPrim PUInt8)]
+    | 7%nat => [(9%nat, TDict (TComp 6) (TPrim PInt)); (10%nat, TComp 6)]
     | _ => []
     end;
-  comp_type_importable := fun c => Nat.leb c 3;
+  comp_type_importable := fun c => Nat.leb c 3 || Nat.eqb c 6 || Nat.eqb c 7;
+  raw_field := 8%nat;
 |}.
 
 (* sema.LeastCommonSuperType on the shapes the generator produces for untyped containers:
@@ -59,7 +65,7 @@ Definition lcs_base (ts : list ty) : option ty :=
         let str := existsb (fun t => negb (is_resource D0 t)) ts in
         if res && str then None
         else if res then Some (TPrim PAnyResource)
-        else if forallb is_hashable ts then Some (TPrim PHashableStruct)
+        else if forallb (is_hashable D0) ts then Some (TPrim PHashableStruct)
         else Some (TPrim PAnyStruct)
   end.
 
